@@ -240,7 +240,11 @@ package frugal
 //@   modifies *
 
 // HTTP status 413 from the server is reported as RESPONSE_TOO_LARGE.
+// The HTTP round trip gets a context whose timeout is the FContext's (C13).
 //@ func lib.fHTTPTransport.makeRequest
+//@   ensures ncalls("http.Client.Do") == 1 ==> ncalls("context.WithTimeout") == 1 && ncalls("lib.FContext.Timeout") == 1 && ncalls("http.Request.WithContext") == 1
+//@   ensures ncalls("http.Client.Do") == 1 ==> callarg("context.WithTimeout", 0, 1) == callret("lib.FContext.Timeout", 0, 0)
+//@   ensures ncalls("http.Client.Do") == 1 ==> callarg("http.Request.WithContext", 0, 1) == callret("context.WithTimeout", 0, 0) && callarg("http.Client.Do", 0, 1) == callret("http.Request.WithContext", 0, 0)
 //@   ensures ncalls("http.Client.Do") == 1 && callret("http.Client.Do", 0, 1) == nil && response.StatusCode == 413 ==> err != nil && ttype(err) == TRANSPORT_EXCEPTION_RESPONSE_TOO_LARGE && implements(err, "thrift.TTransportException")
 //@   modifies *
 
@@ -690,3 +694,14 @@ package frugal
 //@   same_as lib.FContextImpl.RequestHeader
 //@ func lib.FContextImpl.ResponseHeader
 //@   noescape
+
+// ---- routing (C01) on the NATS response path ------------------------------------------------------------------------
+//@ func lib.fNatsTransport.handleServiceNotAvailable
+//@   ensures ncalls("lib.fRegistry.dispatch") == 1
+//@   ensures callarg("lib.fRegistry.dispatch", 0, 1) == opId
+//@   modifies *
+
+//@ func lib.fHTTPTransport.Oneway
+//@   requires h.requestSizeLimit <= 9223372036854775807
+//@   requires h.requestSizeLimit == 0 || h.requestSizeLimit >= 4
+//@   modifies *
